@@ -30,6 +30,8 @@ func (s *Sem) sessionTyped(c ssa.CallInstruction) bool {
 func c06(r *Report, s *Sem) {
 	p := r.P
 	a := s.anchors()
+	R12 := r.Rule("R12", "every receive error ends the receiver: in the receiver goroutine no path leads from the error edge of Transport.Receive back to the Receive call (an envelope the transport refuses — e.g. a terminal session envelope a stricter decoder rejects — must stop the receiver, which closes the transport; skipped, the channel stays established on a session the peer has ended)", 1)
+	defer checkReceiveErrorEndsReceiver(r, s, R12)
 	defer r.Import(s, "C13", "R9", "R11", "a server-initiated end always reaches the state: the session hand-off queue has constant capacity ≥ 1, so the receiver can park the terminal envelope and record the terminal state even when nobody waits for a session envelope (unbuffered, the state stays 'established' and sends keep succeeding)", 1)
 	defer r.Import(s, "C01", "R3", "R10", "a data envelope is never taken for a session envelope: with the identifying members of a message, notification or command present the discriminator cannot answer the session tag (so the handshake's checked read refuses it and aborts)", 4, "never classified as a session")
 	R1 := r.Rule("R1", "every Transport.Send call that can carry a data envelope is dominated by guard facts 'transport connected' and 'state == established' (facts are recomputed from the predicate wrappers' bodies)", 1)
